@@ -3,7 +3,9 @@
 package gen
 
 import (
+	"encoding/json"
 	"math"
+	"strings"
 
 	"pgregory.net/rapid"
 )
@@ -23,6 +25,116 @@ type Bars struct {
 	// penny stock, a crypto pair or an index; 0 in most draws.
 	Exp int `json:"exp,omitempty"`
 }
+
+// jf is a float64 that survives JSON when it is NaN or infinite (replay files of gap series).
+type jf float64
+
+func (f jf) MarshalJSON() ([]byte, error) {
+	v := float64(f)
+	switch {
+	case math.IsNaN(v):
+		return []byte(`"NaN"`), nil
+	case math.IsInf(v, 1):
+		return []byte(`"+Inf"`), nil
+	case math.IsInf(v, -1):
+		return []byte(`"-Inf"`), nil
+	}
+	return json.Marshal(v)
+}
+
+func (f *jf) UnmarshalJSON(b []byte) error {
+	switch string(b) {
+	case `"NaN"`:
+		*f = jf(math.NaN())
+	case `"+Inf"`:
+		*f = jf(math.Inf(1))
+	case `"-Inf"`:
+		*f = jf(math.Inf(-1))
+	default:
+		var v float64
+		if err := json.Unmarshal(b, &v); err != nil {
+			return err
+		}
+		*f = jf(v)
+	}
+	return nil
+}
+
+type barsJSON struct {
+	Class  string `json:"class"`
+	Open   []jf   `json:"open"`
+	High   []jf   `json:"high"`
+	Low    []jf   `json:"low"`
+	Close  []jf   `json:"close"`
+	Volume []jf   `json:"volume"`
+	X      []jf   `json:"x"`
+	Y      []jf   `json:"y"`
+	Exp    int    `json:"exp,omitempty"`
+}
+
+func toJF(xs []float64) []jf {
+	out := make([]jf, len(xs))
+	for i, x := range xs {
+		out[i] = jf(x)
+	}
+	return out
+}
+
+func fromJF(xs []jf) []float64 {
+	out := make([]float64, len(xs))
+	for i, x := range xs {
+		out[i] = float64(x)
+	}
+	return out
+}
+
+// MarshalJSON writes non-finite values as strings.
+func (b Bars) MarshalJSON() ([]byte, error) {
+	return json.Marshal(barsJSON{b.Class, toJF(b.Open), toJF(b.High), toJF(b.Low), toJF(b.Close), toJF(b.Volume), toJF(b.X), toJF(b.Y), b.Exp})
+}
+
+// UnmarshalJSON reads what MarshalJSON wrote.
+func (b *Bars) UnmarshalJSON(data []byte) error {
+	var j barsJSON
+	if err := json.Unmarshal(data, &j); err != nil {
+		return err
+	}
+	*b = Bars{Class: j.Class, Open: fromJF(j.Open), High: fromJF(j.High), Low: fromJF(j.Low), Close: fromJF(j.Close), Volume: fromJF(j.Volume), X: fromJF(j.X), Y: fromJF(j.Y), Exp: j.Exp}
+	return nil
+}
+
+// WithGaps returns a copy of the bars in which 1-3 values are missing (NaN): what a data vendor's
+// gap looks like. Only for the properties that quantify over all series without reference to
+// values (counts, termination, no look-ahead): the bars are no longer Valid.
+func WithGaps(t *rapid.T, b Bars) Bars {
+	n := b.Len()
+	if n == 0 {
+		return b
+	}
+	cp := func(xs []float64) []float64 { return append([]float64{}, xs...) }
+	c := Bars{Class: b.Class + "+gaps", Exp: b.Exp, Open: cp(b.Open), High: cp(b.High), Low: cp(b.Low), Close: cp(b.Close), Volume: cp(b.Volume), X: cp(b.X), Y: cp(b.Y)}
+	for k, m := 0, rapid.IntRange(1, 3).Draw(t, "gaps"); k < m; k++ {
+		i := rapid.IntRange(0, n-1).Draw(t, "gap_at")
+		switch rapid.IntRange(0, 5).Draw(t, "gap_field") {
+		case 0:
+			c.High[i] = math.NaN()
+		case 1:
+			c.Low[i] = math.NaN()
+		case 2:
+			c.Close[i], c.X[i] = math.NaN(), math.NaN()
+		case 3:
+			c.Volume[i] = math.NaN()
+		case 4:
+			c.Open[i], c.Y[i] = math.NaN(), math.NaN()
+		default:
+			c.Open[i], c.High[i], c.Low[i], c.Close[i], c.Volume[i], c.X[i], c.Y[i] = math.NaN(), math.NaN(), math.NaN(), math.NaN(), math.NaN(), math.NaN(), math.NaN()
+		}
+	}
+	return c
+}
+
+// HasGaps reports whether any value is NaN.
+func (b Bars) HasGaps() bool { return strings.HasSuffix(b.Class, "+gaps") }
 
 // Len is the number of bars.
 func (b Bars) Len() int { return len(b.Close) }
